@@ -15,7 +15,7 @@ RULE = ("real ssnet.runonce on both tunnel ends over fake sockets, every micro-s
         "descriptor and sleeps in select()")
 TRUSTED_BASE = sc.STREAM_TB
 ASSUMPTIONS = sc.STREAM_ASSUMPTIONS
-PROFILES = ["latency","latency","bulk","many","noise"]
+PROFILES = ["latency","latency","bulk","many","noise","trickle"]
 
 
 def correspondence(ctx):
